@@ -187,6 +187,9 @@ add("ztrail", Z(3, "", "trail  ", "tab{U0009}"), [[("first", []), ("rel", ["```"
 # a zone that SHOWS a seal section (documentation about sealing): its lines are content, never structure
 add("zseal", Z(3, "", "{U00A7}SEAL::SEAL", "  SCOPE::LINES[1,2]", '  HASH::"0000"'), [[("first", []), ("rel", ["```"]), ("raw", [SEC, "SEAL::SEAL"]), ("raw", ["  SCOPE::LINES[1,2]"]),
                                                                                      ("raw", ['  HASH::"0000"']), ("rel", ["```"])]], "core")
+# a zone tagged as OCTAVE / Markdown that shows a whole document (what a chat client would wrap an answer in)
+add("zoct", Z(3, "octave", "===INNER===", "K::v", "===END==="), [[("first", []), ("rel", ["```", "octave"]), ("raw", ["===INNER==="]), ("raw", ["K::v"]), ("raw", ["===END==="]), ("rel", ["```"])]], "full")
+add("zmd", Z(3, "md", "===INNER===", "K::v"), [[("first", []), ("rel", ["```", "md"]), ("raw", ["===INNER==="]), ("raw", ["K::v"]), ("rel", ["```"])]], "full")
 add("zempty", Z(3, "", ), [[("first", []), ("rel", ["```"]), ("rel", ["```"])]], "core")
 add("ztab", Z(3, "txt", "{U0009}x", "cafe{U0301}", 'q"\\n'), [[("first", []), ("rel", ["```", "txt"]), ("raw", ["U0009", "x"]), ("raw", ["cafe", "U0301"]), ("raw", ['q"\\n']), ("rel", ["```"])]], "full")
 add("zblank3", Z(3, "", "a  ", "", "", "", "{U00A7}1::X", "{U00A7}2::Y"), [[("first", []), ("rel", ["```"]), ("raw", ["a  "]), ("raw", []), ("raw", []), ("raw", []),
